@@ -29,7 +29,7 @@ func TestMain(m *testing.M) { ev.Main(m) }
 
 // P is the model of one packet (all kinds share the struct; unused fields stay zero).
 type P struct {
-	Kind       string        `json:"kind"` // connect connectRes createStream createStreamRes publish play call closeStream scs wack spb uc
+	Kind       string        `json:"kind"`          // connect connectRes createStream createStreamRes publish play call closeStream scs wack spb uc
 	Tid        uint64        `json:"tid,omitempty"` // float64 bits
 	Name       amf0ref.Bytes `json:"name,omitempty"`
 	Obj        *amf0ref.Val  `json:"obj,omitempty"`
@@ -42,6 +42,7 @@ type P struct {
 	Evt        uint16        `json:"evt,omitempty"`
 	Data       int32         `json:"data,omitempty"`
 	Extra      int32         `json:"extra,omitempty"`
+	Edit       uint64        `json:"edit,omitempty"` // != 0: the packet is sized and marshalled, then its object/arguments are edited in place (amf0x.Mutate) and it is marshalled again
 }
 
 func num(bits uint64) amf0ref.Val { return amf0ref.Val{K: amf0ref.Number, Num: bits} }
@@ -431,6 +432,66 @@ func checkCodec(p P) error {
 	if err != nil || !bytes.Equal(b, b2) {
 		return fmt.Errorf("%s: re-marshal differs (err %v)", p.Kind, err)
 	}
+	if p.Edit != 0 {
+		return checkEdited(p)
+	}
+	return nil
+}
+
+// checkEdited: a packet that was already sized and marshalled is still a packet the library can
+// construct after the application edits its command object or arguments in place (a value set
+// on a nested object, a number overwritten); Size() and the payload follow the edit.
+func checkEdited(p P) error {
+	q := p
+	q.Edit = 0
+	for _, f := range []**amf0ref.Val{&q.Obj, &q.Args} {
+		if *f != nil {
+			c := amf0x.Clone(**f)
+			*f = &c
+		}
+	}
+	for _, built := range []bool{true, false} {
+		var pkt rtmp.Packet
+		if built {
+			pkt = q.build()
+		} else {
+			// the same edit on a packet that was decoded from the wire
+			pkt = q.fresh()
+			if err := pkt.UnmarshalBinary(q.wire()); err != nil {
+				return nil // judged by the codec check
+			}
+		}
+		pkt.Size()
+		if _, err := pkt.MarshalBinary(); err != nil {
+			return nil
+		}
+		field, model := "CommandObject", q.Obj
+		if p.Edit&1 == 1 && q.Args != nil {
+			field, model = "Args", q.Args
+		}
+		fv := reflect.ValueOf(pkt).Elem().FieldByName(field)
+		if model == nil || !fv.IsValid() || fv.IsNil() {
+			return nil
+		}
+		lib, ok := fv.Interface().(amf0.Amf0)
+		if !ok {
+			return nil
+		}
+		what := amf0x.Mutate(lib, model, p.Edit>>1, false)
+		if what == "" {
+			return nil
+		}
+		b, err := pkt.MarshalBinary()
+		if err != nil {
+			return fmt.Errorf("%s after an in-place edit (%s): marshal: %v", p.Kind, what, err)
+		}
+		if len(b) != pkt.Size() {
+			return fmt.Errorf("%s after an in-place edit (%s): marshals to %d bytes, Size() = %d", p.Kind, what, len(b), pkt.Size())
+		}
+		if e := q.sameLayout(b); e != nil {
+			return fmt.Errorf("%s after an in-place edit (%s): payload %x..: %v", p.Kind, what, head(b), e)
+		}
+	}
 	return nil
 }
 
@@ -579,6 +640,9 @@ func genPacket(t *rapid.T, kinds []string) P {
 	case "uc":
 		return genUC(t)
 	}
+	if p.Obj != nil && rapid.IntRange(0, 3).Draw(t, "edit") == 0 {
+		p.Edit = 1 + rapid.Uint64Range(0, 1<<20).Draw(t, "editsel")
+	}
 	return p
 }
 
@@ -588,6 +652,9 @@ func (p P) nontrivial() (bool, []string) {
 	var cl []string
 	cl = append(cl, "kind:"+p.Kind)
 	nt := false
+	if p.Edit != 0 {
+		cl = append(cl, "edited-in-place")
+	}
 	for _, v := range []*amf0ref.Val{p.Obj, p.Args} {
 		if v != nil && amf0ref.Measure(*v).Depth >= 2 {
 			nt = true
@@ -663,7 +730,7 @@ func newPipe() *pipe {
 
 // HOp is one step of a request/response history between client A and server B.
 type HOp struct {
-	Op   string `json:"op"` // request | response | other | raw
+	Op   string `json:"op"`   // request | response | other | raw
 	From int    `json:"from"` // 0: A sends, 1: B sends
 	Pkt  P      `json:"pkt"`
 	Sid  uint32 `json:"sid,omitempty"`
@@ -711,6 +778,13 @@ func runHistory(c HCase) (st hstats, err error) {
 	eps := [2]*rtmp.Protocol{pp.a, pp.b}
 	// model: per endpoint, tid bits -> kind of the last unanswered request it sent
 	model := [2]map[uint64]string{{}, {}}
+	type keptMsg struct {
+		i    int
+		m    *rtmp.Message
+		want rtmpref.Msg
+		pkt  rtmp.Packet
+	}
+	var kept []keptMsg
 	for i, op := range c.Ops {
 		w, r := eps[op.From], eps[1-op.From]
 		payload := op.Pkt.wire()
@@ -754,6 +828,7 @@ func runHistory(c HCase) (st hstats, err error) {
 		if e := rtmpx.Same(m, rtmpxMsg(wantType, op.Sid, wantPayload)); e != nil {
 			return st, fmt.Errorf("op %d (%s): message differs: %v", i, op.Pkt.Kind, e)
 		}
+		kept = append(kept, keptMsg{i, m, rtmpxMsg(wantType, op.Sid, wantPayload), nil})
 		pkt, e := r.DecodeMessage(m)
 		want := op.Pkt
 		switch op.Pkt.Kind {
@@ -796,6 +871,22 @@ func runHistory(c HCase) (st hstats, err error) {
 		b2, e := pkt.MarshalBinary()
 		if e != nil || !bytes.Equal(b2, payload) {
 			return st, fmt.Errorf("op %d (%s): decoded %T re-marshals to %d bytes, received payload has %d (err %v)", i, op.Pkt.Kind, pkt, len(b2), len(payload), e)
+		}
+		kept[len(kept)-1].pkt = pkt
+	}
+	// what was received earlier is still what it was after the later traffic
+	for _, k := range kept {
+		if e := rtmpx.Same(k.m, k.want); e != nil {
+			return st, fmt.Errorf("op %d: the message returned then changed while later messages were read: %v", k.i, e)
+		}
+		if k.pkt != nil {
+			want := k.want.Payload
+			if k.want.Type == 17 {
+				want = want[1:]
+			}
+			if b, e := k.pkt.MarshalBinary(); e != nil || !bytes.Equal(b, want) {
+				return st, fmt.Errorf("op %d: the %T decoded then changed while later messages were read", k.i, k.pkt)
+			}
 		}
 	}
 	return st, nil
@@ -852,6 +943,7 @@ func genHistory(t *rapid.T) HCase {
 					delete(peer, op.Pkt.Tid)
 				}
 			}
+			op.AMF3 = rapid.IntRange(0, 3).Draw(t, "amf3r") == 0
 		default:
 			op.Op = "other"
 			op.Pkt = genPacket(t, []string{"publish", "play", "call", "closeStream", "wack", "spb", "uc", "call"})
@@ -896,6 +988,103 @@ func TestHistory(t *testing.T) {
 	})
 }
 
+// ---------------------------------------------------------------- check: many outstanding requests
+
+// MCase: N requests outstanding at once (connect with tid 1, then createStream with tids
+// Base+1..), answered in an order derived from Stride, then each answered once more.
+type MCase struct {
+	N      int    `json:"n"`
+	Base   uint32 `json:"base"`
+	Stride int    `json:"stride"` // responses in order (i*Stride) mod N; Stride coprime with N is a permutation, otherwise some requests stay unanswered
+}
+
+var recMany = ev.New(prop, "many-pending",
+	"up to 20000 requests outstanding at once on one connection (connect + createStream with distinct transaction ids), answered in a strided permutation; "+
+		"oracle: every response decodes as the response type of its request, exactly once (a second response to the same id is an error); non-trivial = more than 1000 outstanding")
+
+func runMany(c MCase) error {
+	pp := newPipe()
+	kinds := make([]string, c.N)
+	tids := make([]float64, c.N)
+	for i := 0; i < c.N; i++ {
+		kinds[i], tids[i] = "createStream", float64(c.Base)+float64(i)+2
+		var pkt rtmp.Packet
+		if i == 0 {
+			kinds[i], tids[i] = "connect", 1
+			pkt = rtmp.NewConnectAppPacket()
+		} else {
+			k := rtmp.NewCreateStreamPacket()
+			k.TransactionID = amf0.Number(tids[i])
+			pkt = k
+		}
+		if e := pp.a.WritePacket(pkt, 0); e != nil {
+			return fmt.Errorf("request %d: WritePacket: %v", i, e)
+		}
+		if _, e := pp.b.ReadMessage(); e != nil {
+			return fmt.Errorf("request %d: ReadMessage: %v", i, e)
+		}
+	}
+	answered := make([]bool, c.N)
+	respond := func(i int) (rtmp.Packet, error) {
+		var pkt rtmp.Packet
+		if kinds[i] == "connect" {
+			pkt = rtmp.NewConnectAppResPacket(amf0.Number(tids[i]))
+		} else {
+			pkt = rtmp.NewCreateStreamResPacket(amf0.Number(tids[i]))
+		}
+		if e := pp.b.WritePacket(pkt, 0); e != nil {
+			return nil, fmt.Errorf("WritePacket: %v", e)
+		}
+		m, e := pp.a.ReadMessage()
+		if e != nil {
+			return nil, fmt.Errorf("ReadMessage: %v", e)
+		}
+		return pp.a.DecodeMessage(m)
+	}
+	for j := 0; j < c.N; j++ {
+		i := (j * c.Stride) % c.N
+		pkt, e := respond(i)
+		if answered[i] {
+			if e == nil {
+				return fmt.Errorf("second response to transaction %v (of %d requests) decoded as %T instead of an error", tids[i], c.N, pkt)
+			}
+			continue
+		}
+		answered[i] = true
+		if e != nil {
+			return fmt.Errorf("response %d of %d, to the outstanding %s with transaction id %v: %v", j, c.N, kinds[i], tids[i], e)
+		}
+		if e := checkType(pkt, kinds[i]+"Res"); e != nil {
+			return fmt.Errorf("response to %s tid %v (of %d outstanding): %v", kinds[i], tids[i], c.N, e)
+		}
+	}
+	return nil
+}
+
+func TestManyPending(t *testing.T) {
+	ev.Rapid(t, "many-pending", 24, 400, func(t *rapid.T) {
+		c := MCase{Base: rapid.SampledFrom([]uint32{0, 100, 1 << 24, 1<<32 - 30000}).Draw(t, "base")}
+		c.N = rapid.SampledFrom([]int{2, 50, 1000, 1025, 3000, 4097, 5000, 8193, 20000}).Draw(t, "n")
+		if rapid.Bool().Draw(t, "anyn") {
+			c.N = rapid.IntRange(1, 20000).Draw(t, "nn")
+		}
+		c.Stride = rapid.SampledFrom([]int{1, c.N - 1, 7, 2, 4099, 3}).Draw(t, "stride")
+		if c.Stride < 1 {
+			c.Stride = 1
+		}
+		err := ev.Try(func() error { return runMany(c) })
+		var cl []string
+		if c.N > 4096 {
+			cl = append(cl, "more-than-4096")
+		}
+		recMany.Case(c.N > 1000, ev.Hash(c), cl, func() any { return c })
+		if err != nil {
+			f := ev.Fail(prop, "many-pending", c, err)
+			t.Fatalf("%v (replay %s)", err, f)
+		}
+	})
+}
+
 func summarize(c HCase) any {
 	var s []string
 	for _, op := range c.Ops {
@@ -914,11 +1103,11 @@ func summarize(c HCase) any {
 // ---------------------------------------------------------------- checks: typed waits
 
 type WCase struct {
-	Seq    []P    `json:"seq"`    // what B sends, in order
-	Raw    []int  `json:"raw"`    // for ExpectMessage: indices (into Seq order) before which an audio/video message is inserted
-	Want   string `json:"want"`   // packet kind waited for (ExpectPacket) or "" for ExpectMessage
-	Types  []int  `json:"types"`  // message types for ExpectMessage
-	Chunk  uint32 `json:"chunk"`  // B announces this chunk size first when non-zero
+	Seq   []P    `json:"seq"`   // what B sends, in order
+	Raw   []int  `json:"raw"`   // for ExpectMessage: indices (into Seq order) before which an audio/video message is inserted
+	Want  string `json:"want"`  // packet kind waited for (ExpectPacket) or "" for ExpectMessage
+	Types []int  `json:"types"` // message types for ExpectMessage
+	Chunk uint32 `json:"chunk"` // B announces this chunk size first when non-zero
 }
 
 func rtmpxMsg(typ uint8, sid uint32, payload []byte) rtmpref.Msg {
@@ -1169,6 +1358,13 @@ func replayers() map[string]ev.Replayer {
 			}
 			_, e := runHistory(c)
 			return e
+		},
+		"many-pending": func(raw json.RawMessage) error {
+			var c MCase
+			if err := json.Unmarshal(raw, &c); err != nil {
+				return err
+			}
+			return runMany(c)
 		},
 		"typed-wait": func(raw json.RawMessage) error {
 			var c WCase
